@@ -21,6 +21,7 @@ RULE = (
     "result has at least one value; distinct = distinct canonical shape (kinds, arities, wiring, defaults, bindings, "
     "provided set, selection)."
     ' Also: two or three readers of ONE input name whose signature defaults compare equal but are different values (1 / True / 1.0, [1] / [True]), nobody supplying the name, every node order, one reader optionally nested: each node is evaluated with its own default.'
+    ' Acyclic gate-free programs WITH ordering signals (emit / wait_for), a third of the upstream-fed parameters defaulted (known finding: a waiter that ran on a provisional value is not re-run). Identity sentinels as signature defaults (object(), None, Ellipsis, Enum member, class, function, empty tuple): a parameter left out must reach the function as its own default object, flat, nested and behind a renamed input.'
 )
 ASSUMPTIONS = [
     "generated node functions are pure symbolic-term constructors; RefEval never imports hypergraph",
